@@ -136,6 +136,28 @@ CLAIMED = {
        "defaultSource is correspondence-only. Trusted: Lean kernel + std axioms; Spec.Entity/ExtGate/Uri; Python renderers and judge.",
   technique="Lean 4 proof (simulation, well-founded measure, correct-by-construction log type) + model/implementation/Spec correspondence",
   ref="4/C19"),
+ "C20": dict(
+  text="Lean 4 theorems, unbounded over all finite file maps (cyclic or not), document shapes and relative references, about a "
+       "code-shaped model of XIncludeUtils (parseDOMNodeDoingXInclude / doDOMNodeXInclude / doXIncludeXMLFileDOM / "
+       "doXIncludeTEXTFileDOM, inclusion-history stack, fallback rules, XIncludeLocation::prependPath base fix-ups; XMLErrs codes "
+       "and severity bounds regenerated from XMLErrorCodes.hpp each run): process_total (the budget files+1 is never exhausted and any "
+       "larger budget gives the same result: termination on every map, bounded by the history stack), acyclic_eq_subst (no reachable "
+       "loop => resulting tree incl. the resolved base URI of every element = the declarative substitution, error classes = the Spec's), "
+       "cycle_reported / self_include_reported (a loop reachable through live includes => a fatal circular-inclusion error), "
+       "fallback_spec, invalid_usage_reported, resolve_prependPath + base_fixup_preserves_targets (RFC 2396 composition law: included "
+       "content and fallback children keep their base URI, so relative references resolve to the same targets). Tied to the code by "
+       "generated file maps materialised on disk and parsed by the real XercesDOMParser and DOMLSParser (namespaces + XInclude on): DOM "
+       "dump with resolved bases + reported error codes vs the model; the executable Spec judges (tree equality on acyclic maps, "
+       "error class + termination on cyclic ones; crash/hang/sanitizer report = violation).",
+  note="The model states what the property demands; where the pinned code differs (six recorded findings, fixes/c20-*.diff) a second, "
+       "unproved as-is model (XV.Model.XIncludeAsIs) reproduces the code exactly so that every disagreement is attributed or flagged. "
+       "PARTIAL: DOM surgery is modelled as list substitution; encodings/BOMs are exercised at byte level by the harness only (model sees "
+       "characters); DTD notation/entity clash checks, entity resolvers, accept attributes, xpointer, non-well-formed targets, absolute "
+       "xml:base not modelled/generated; invalid usages are pre-classified by the generator (one fault per include); the executable "
+       "cyclicity test of the driver is cross-checked against the proved theorems at run time, not proved. Trusted: Lean kernel + "
+       "propext/Classical.choice/Quot.sound; XV.Spec.XInclude as transcribed; translator; harness, generator and XML renderer.",
+  technique="Lean 4 proof over a code-shaped model + Spec-judged model/implementation correspondence on generated file maps",
+  ref="4/C20"),
 }
 
 def main():
